@@ -24,6 +24,7 @@ def dispatch (line : String) : String :=
   | "junit" :: rest => (handleJunit rest).getD "bad-op"
   | "xmltext" :: rest => (handleXmlText rest).getD "bad-op"
   | "psleep" :: rest => (handlePSleep rest).getD "bad-op"
+  | "swatch" :: rest => (handleSWatch rest).getD "bad-op"
   | "hext" :: rest => (handleHext rest).getD "bad-op"
   | "hlend" :: rest => (handleHlend rest).getD "bad-op"
   | "show" :: rest => (handleShow rest).getD "bad-op"
